@@ -169,6 +169,8 @@ def check(R, F):
             return [('?', False)]
         c_ = fn.canon(gd[3]['args'][0]['pl'])
         out = []
+        if paths.show_operand(fn, gd[3]['args'][0]).endswith('.prior_pointer'):
+            return [('match', True)]          # the prior_pointer of a MatchStart: a match found by the compression scan
         leaves = origins.trace(fn, c_['l'], origins.norm_path(c_['p']), at=(gd[0], None))
         if leaves and all(lf[0] == 'param' for lf in leaves):
             # read straight out of a parameter (self.<anchor>, the hint): the rendered place says which
